@@ -174,7 +174,10 @@ def strat_sim(env, cfg):
                 pairs.append([-a, b])            # cancelling pair
             else:
                 pairs.append([draw(sc), draw(sc)])
-        return dict(cid=x.cid, variant=draw(st.sampled_from(VARIANTS)), pairs=pairs, poison=draw(st.integers(0, 255)))
+        # every pair in its own representation: the multi-pairing normalises (and compacts) its inputs itself
+        reps = [[draw(rep1(x)), draw(rep2(x))] for _ in range(n)] if draw(st.integers(0, 2)) else []
+        return dict(cid=x.cid, variant=draw(st.sampled_from(VARIANTS)), pairs=pairs, reps=reps,
+                    poison=draw(st.integers(0, 255)))
     return s()
 
 
@@ -191,10 +194,13 @@ def run_sim(env, cfg, case):
     want = F12.pow(g, e)
     what = "%s[cid=%d](m=%d)" % (SIMV[variant], x.cid, n)
 
+    reps = case.get("reps") or [[dict(kind="basic", z=1, inf=0), dict(kind="basic", z=[1, 0], inf=0)]] * n
+    reps = [[kinds_ok(x, a), kinds_ok(x, b)] for a, b in reps]
+
     def build(p):
-        b1 = b"".join(ecctx.enc_point(x.base, P) for P in Ps)
+        b1 = b"".join(ecctx.enc_point(x.base, P, r[0]["kind"], r[0]["z"], r[0]["inf"]) for P, r in zip(Ps, reps))
         s1 = p.new("EPV", struct.pack("<II", n, n) + b1)
-        b2 = b"".join(pcctx.enc_point2(x, Q)[1:] for Q in Qs)
+        b2 = b"".join(pcctx.enc_point2(x, Q, r[1]["kind"], tuple(r[1]["z"]), r[1]["inf"])[1:] for Q, r in zip(Qs, reps))
         s2 = p.new("EP2V", bytes([2]) + struct.pack("<II", n, n) + b2)
         sg = gt_slot(p, x)
         p.call(SIMV[variant], sg, s1, s2, n)
@@ -211,6 +217,8 @@ def run_sim(env, cfg, case):
             raise Violation("%s modified its input" % what)
     ident = sum(1 for P, Q in zip(Ps, Qs) if P is None or Q is None)
     lab = ["variant:" + SIMV[variant], "cid:%d" % x.cid, "sim:m=%d" % n, "sim:identities=%d" % min(ident, 3)]
+    if any(a["kind"] != "basic" or b["kind"] != "basic" for a, b in reps):
+        lab.append("sim:projective-input")
     return (n >= 2 and ident >= 1) or (n >= 2 and e not in (0, 1)) or n == 0, lab
 
 
